@@ -54,7 +54,10 @@ impl Check for HoldTimers {
         if hold == 0 && rng.chance(1, 2) {
             ops.push(jarr!["wait", 86_400_000u64]);
         }
-        jobj! {"local_hold" => local, "remote_hold" => remote, "auto_ka" => auto_ka, "ebgp" => ebgp, "sub" => rng.next_u64() >> 1, "ops" => Json::Arr(ops)}
+        // how many octets the peer's socket takes before the daemon's writes block (the peer reads only
+        // at the end of each op): a peer that has gone quiet and stopped reading must still be timed out
+        let cap = *rng.pick(&[0u64, 0, 0, 10, 25, 30, 45]);
+        jobj! {"local_hold" => local, "remote_hold" => remote, "auto_ka" => auto_ka, "ebgp" => ebgp, "cap" => cap, "sub" => rng.next_u64() >> 1, "ops" => Json::Arr(ops)}
     }
 
     fn execute(&self, case: &Json, tol: &Tolerate) -> Outcome {
@@ -67,7 +70,7 @@ impl Check for HoldTimers {
 
     fn info(&self) -> CheckInfo {
         CheckInfo {
-            rule: "hold-time pair from {0,3,9,30,90,65535}^2, timed script of waits (10%-400% of the negotiated hold time, +-1 ms around the boundary), KEEPALIVE / UPDATE / ROUTE-REFRESH arrivals, through OpenConfirm and Established; oracle on the wire in virtual time: HoldTimerExpired NOTIFICATION iff a receive gap reaches the negotiated hold time (reset by KEEPALIVE/UPDATE only), DUT KEEPALIVE spacing = hold/3 when idle, nothing timer-driven when the negotiated value is 0 (incl. a virtual day of silence). non-trivial = session reached OpenConfirm and at least one wait crossed a third of the hold time; distinct = hash of the seam-event sequence".into(),
+            rule: "hold-time pair from {0,3,9,30,90,65535}^2, timed script of waits (10%-400% of the negotiated hold time, +-1 ms around the boundary), KEEPALIVE / UPDATE / ROUTE-REFRESH arrivals, through OpenConfirm and Established; oracle on the wire in virtual time: HoldTimerExpired NOTIFICATION iff a receive gap reaches the negotiated hold time (reset by KEEPALIVE/UPDATE only), DUT KEEPALIVE spacing = hold/3 when idle, nothing timer-driven when the negotiated value is 0 (incl. a virtual day of silence); in half of the runs the peer's socket takes only 10-45 octets once the session is up (a KEEPALIVE has 19) and is read at the end of each op only (a peer that has stopped reading): then the connection must have left Established once nothing was received for the hold time, even though the NOTIFICATION cannot be delivered yet (spacing and lateness on the wire are not judged in those runs). non-trivial = session reached OpenConfirm and at least one wait crossed a third of the hold time; distinct = hash of the seam-event sequence".into(),
             components_real: vec!["event::accept_connection".into(), "PeerSession::{run,session_loop,run_select,rx_msg,apply_outputs,flush_tx,on_established}".into(), "fsm::{PeerFsm,Connection}".into(), "packet::PeerCodec".into(), "TableManager::register_peer".into()],
             components_stubbed: vec!["TCP (simulated pipe, zero latency in this scenario)".into(), "clock (tokio paused clock)".into(), "listener/dispatch loop of Global::serve (harness copy calling the same functions)".into(), "remote BGP speaker (scripted)".into()],
             assumptions: vec!["the statement does not constrain the pre-OPEN (OpenSent) timer: checks start when the DUT has received an OPEN".into(), "5 ms tolerance on virtual instants".into()],
@@ -109,6 +112,10 @@ async fn run(case: Json, tol: Tolerate) -> Outcome {
     let mut crossed_third = false;
     let mut dead = false;
     let mut checked_frames = 0usize;
+    // the peer's socket takes few octets and is read at the end of each op only: what the daemon writes
+    // may be stamped later than it was due, so the spacing and lateness clauses are not judged on the wire
+    let stalled = case.i("cap", 0) > 0;
+    let mut pending_resets: Vec<u64> = Vec::new();
 
     macro_rules! fail {
         ($class:expr, $($arg:tt)*) => {{
@@ -127,6 +134,17 @@ async fn run(case: Json, tol: Tolerate) -> Outcome {
                 spk.process_inbox(now(start));
                 w.quiesce().await;
                 spk.process_inbox(now(start));
+                let cap = case.i("cap", 0) as usize;
+                if cap > 0 {
+                    // from here on the peer's socket takes `cap` octets (a KEEPALIVE has 19)
+                    for _ in 0..2 {
+                        w.quiesce().await;
+                        spk.process_inbox(now(start));
+                    }
+                    if let Some(c) = &spk.conn {
+                        c.ctl().set_capacity(cap);
+                    }
+                }
                 if spk.dut_open.is_some() && spk.open_sent {
                     last_reset = Some(now(start).saturating_sub(1)); // OPEN (and KEEPALIVE) reached the DUT within this instant
                     if spk.auto_ka {
@@ -143,7 +161,42 @@ async fn run(case: Json, tol: Tolerate) -> Outcome {
                 }
                 tokio::time::sleep(Duration::from_millis(ms)).await;
                 w.quiesce().await;
+                if stalled {
+                    if let Some(c) = &spk.conn {
+                        let ctl = c.ctl();
+                        pending_resets.retain(|off| match ctl.peer_read_time(*off) {
+                            Some(t) => {
+                                if last_reset.is_some_and(|r| t > r) {
+                                    last_reset = Some(t);
+                                }
+                                false
+                            }
+                            None => true,
+                        });
+                    }
+                }
+                if stalled && !dead && hold > 0 && pending_resets.is_empty() {
+                    // The peer has read nothing during this wait and its socket takes few octets: the
+                    // daemon's writes may be blocked. The hold timer does not care: once nothing was received
+                    // for the hold time the connection is no longer Established, whether or not the
+                    // NOTIFICATION can be delivered.
+                    if let (Some(r), Some((a, p))) = (last_reset, w.peer_fsm_states(peer_addr).await) {
+                        let t = now(start);
+                        if t > r + hold * 1000 + TOL_MS && (a == crate::fsm::State::Established || p == crate::fsm::State::Established || a == crate::fsm::State::OpenConfirm || p == crate::fsm::State::OpenConfirm) {
+                            fail!("not-expired/peer-does-not-read", "op {}: now {} ms, last KEEPALIVE/UPDATE reached the DUT at {} ms, hold {} s: the connection is still {:?}/{:?} (the peer's socket takes {} octets and was not read during the wait)", i, t, r, hold, a, p, case.i("cap", 0));
+                            dead = true;
+                        }
+                        out.hit("probe.stalled-peer-wait");
+                    }
+                }
                 spk.process_inbox(now(start));
+                if stalled {
+                    // what was blocked goes out now that there is room
+                    for _ in 0..3 {
+                        w.quiesce().await;
+                        spk.process_inbox(now(start));
+                    }
+                }
                 out.hit("op.wait");
             }
             "ka" | "upd" | "rr" if !dead && spk.conn.is_some() => {
@@ -158,13 +211,35 @@ async fn run(case: Json, tol: Tolerate) -> Outcome {
                 // UPDATE / ROUTE-REFRESH are only legal in Established; in OpenConfirm they end the session (FSM error)
                 let legal = tag == "ka" || spk.state == SpkState::Established || (spk.state == SpkState::Closed);
                 if sent && tag != "rr" && legal && last_reset.is_some() {
-                    last_reset = Some(t);
+                    if stalled {
+                        // a daemon whose write is blocked reads what we sent later than we sent it: the timer
+                        // is re-armed when it reads it
+                        if let Some(c) = &spk.conn {
+                            pending_resets.push(c.ctl().bytes_written());
+                        }
+                    } else {
+                        last_reset = Some(t);
+                    }
                 }
                 out.hit(&format!("op.{}", tag));
             }
             _ => {}
         }
 
+        if stalled {
+            if let Some(c) = &spk.conn {
+                let ctl = c.ctl();
+                pending_resets.retain(|off| match ctl.peer_read_time(*off) {
+                    Some(t) => {
+                        if last_reset.is_some_and(|r| t > r) {
+                            last_reset = Some(t);
+                        }
+                        false
+                    }
+                    None => true,
+                });
+            }
+        }
         // ---- oracle over frames seen so far --------------------------------------------------
         let frames = spk.frames.clone();
         for (k, f) in frames.iter().enumerate().skip(checked_frames) {
@@ -175,6 +250,8 @@ async fn run(case: Json, tol: Tolerate) -> Outcome {
                 if !first_reply {
                     if hold == 0 {
                         fail!("keepalive-sent-with-zero-holdtime", "op {}: DUT sent a timer-driven KEEPALIVE at {} ms", i, f.t_ms);
+                    } else if stalled {
+                        out.hit("probe.keepalive-spacing-not-judged-for-a-peer-that-does-not-read");
                     } else if gap + TOL_MS < ka_ms || gap > ka_ms + TOL_MS {
                         fail!(if gap < ka_ms { "keepalive-interval-too-short" } else { "keepalive-interval-too-long" },
                             "op {}: KEEPALIVE at {} ms, previous frame at {} ms, gap {} ms, expected {} ms", i, f.t_ms, frames[k - 1].t_ms, gap, ka_ms);
@@ -195,6 +272,8 @@ async fn run(case: Json, tol: Tolerate) -> Outcome {
                             let due = r + hold * 1000;
                             if f.t_ms + TOL_MS < due {
                                 fail!("expired-early", "op {}: HoldTimerExpired at {} ms, last KEEPALIVE/UPDATE reached the DUT at {} ms, due at {} ms", i, f.t_ms, r, due);
+                            } else if f.t_ms > due + TOL_MS && stalled {
+                                out.hit("probe.expiry-notification-delivered-late-to-a-peer-that-does-not-read");
                             } else if f.t_ms > due + TOL_MS {
                                 fail!("expired-late", "op {}: HoldTimerExpired at {} ms, due at {} ms (something other than KEEPALIVE/UPDATE re-armed the timer)", i, f.t_ms, due);
                             } else {
@@ -212,16 +291,23 @@ async fn run(case: Json, tol: Tolerate) -> Outcome {
         if spk.state == SpkState::Closed {
             dead = true;
         }
+        // a connection given up in the middle of a blocked write ends with part of a frame and a FIN
+        if stalled && spk.conn.as_ref().is_some_and(|c| c.ctl().peer_closed()) {
+            if !dead {
+                out.hit("probe.connection-closed-by-the-daemon-after-a-blocked-write");
+            }
+            dead = true;
+        }
         // missing expiry / missing keepalive
         if !dead {
             if let (true, Some(r)) = (hold > 0, last_reset) {
                 let t = now(start);
-                if t > r + hold * 1000 + TOL_MS {
-                    fail!("not-expired", "op {}: now {} ms, last KEEPALIVE/UPDATE reached the DUT at {} ms, hold {} s, session still up", i, t, r, hold);
+                if t > r + hold * 1000 + TOL_MS && pending_resets.is_empty() {
+                    fail!(if stalled { "not-expired/peer-does-not-read" } else { "not-expired" }, "op {}: now {} ms, last KEEPALIVE/UPDATE reached the DUT at {} ms, hold {} s, session still up", i, t, r, hold);
                     dead = true;
                 }
                 if let Some(lf) = frames.last() {
-                    if t > lf.t_ms + ka_ms + TOL_MS && t <= r + hold * 1000 {
+                    if t > lf.t_ms + ka_ms + TOL_MS && t <= r + hold * 1000 && !stalled {
                         fail!("keepalive-missing", "op {}: now {} ms, last DUT frame at {} ms, expected a KEEPALIVE every {} ms", i, t, lf.t_ms, ka_ms);
                     }
                 }
